@@ -3,7 +3,7 @@
 # Verifies a seeded change (patch.diff + demo test) on a fresh scratch worktree of /repo and
 # reports which property checks flag it. The worktree is removed afterwards.
 export GOFLAGS=-mod=mod GOPROXY=off GOSUMDB=off GOTOOLCHAIN=local GOWORK=off
-sd=$1; shift
+sd=$(realpath $1); shift
 props=${@:-C01 C02 C03 C04 C05 C06 C07 C08 C09 C10 C11 C12 C13 C14 C15 C16 C17 C18 C19 C20}
 name=$(basename $sd)
 wt=$(mktemp -d /tmp/sv.XXXXXX)/wt
